@@ -318,9 +318,10 @@ type Rule struct {
 	Every  uint64 // with Index==0: fire when hash(seed,counter)%Every==0 (0/1 = always)
 	Action int    // AErrno, AShort, AEagain, ADelay
 	Errno  unix.Errno
-	Max    int   // AShort: transfer at most Max bytes
-	Ns     int64 // ADelay
-	Once   bool  // disable after first firing
+	Max    int    // AShort: transfer at most Max bytes
+	Ns     int64  // ADelay
+	Once   bool   // disable after first firing
+	Site   string // "": any; else the rule only matches calls whose innermost two framework frames contain this text
 
 	count atomic.Int64
 	dead  atomic.Bool
@@ -413,6 +414,9 @@ func consult(call int, fd int) *Rule {
 			continue
 		}
 		if r.Class != "" && classOf(fd) != r.Class {
+			continue
+		}
+		if r.Site != "" && !strings.Contains(siteN(2), r.Site) {
 			continue
 		}
 		c := r.count.Add(1)
